@@ -25,7 +25,7 @@ ASSUMPTIONS = [
     "'best' = minimum for min-type and maximum for max-type measures, as the statement says",
 ]
 GATES = {
-    "constant_ambiguity_volume": 1, "threshold_1": 1, "best_at_first_or_last_disparity": 1,
+    "constant_ambiguity_volume": 1, "ambiguity_differs_on_less_than_1_percent_of_the_pixels": 1, "threshold_1": 1, "best_at_first_or_last_disparity": 1,
     "two_steps_same_method_different_suffix": 1, "max_type_volume": 3, "pipelines_compared_with_and_without": 5,
     "regularisation_quantile_1": 1, "regularised_interval_bounds_after_ambiguity": 1, "regularisation_kernel_size_1": 1, "pixels_judged": 20000,
 }
@@ -140,6 +140,10 @@ def judge_step(ctx, case, desc, method, p, sfx, cv_b, cv_a, img_left):
                                 i = np.unravel_index(np.argmax(np.abs(expn - got)), got.shape)
                                 ctx.violation("normalised-ambiguity-value", f"pixel {list(i)}: band {got[i]}, reference {expn[i]}", case,
                                               situation=f"{tm}-type", desc=desc)
+        if judged.any() and p["normalization"]:
+            vals, counts = np.unique(low[judged], return_counts=True)
+            ctx.gate("ambiguity_differs_on_less_than_1_percent_of_the_pixels",
+                     int(len(vals) > 1 and (counts.sum() - counts.max()) < 0.01 * counts.sum()))
         ctx.gate("constant_ambiguity_volume", int(judged.any() and bool(np.all(low[judged] == low[judged].flat[0]) and np.all(high[judged] == high[judged].flat[0]))))
         return
     if method == "risk":
@@ -207,12 +211,24 @@ def run_case(case, ctx):
         costs[:] = costs[0, 0]
         if np.isnan(costs[0, 0]).all() or np.nanmin(costs[0, 0]) == np.nanmax(costs[0, 0]):
             costs[:, :, 0], costs[:, :, 1] = 0.0, 3.0
+    nearly_constant = case["i"] % 12 == 6
+    if nearly_constant:
+        # every pixel the same curve but a handful (< 1 % of the pixels): the 1st and 99th percentiles of the ambiguity coincide
+        H, W = int(rng.integers(15, 20)), int(rng.integers(20, 28))
+        costs = np.empty((H, W, D), np.float32)
+        costs[:] = np.linspace(0.0, 8.0, D, dtype=np.float32)
+        other = np.full(D, 4.0, np.float32)
+        other[int(rng.integers(0, D))] = 3.5 if tm == "min" else 4.5
+        for _ in range(int(rng.integers(1, 3))):
+            costs[int(rng.integers(0, H)), int(rng.integers(0, W))] = other
     subpix = 1 if rng.random() < 0.7 else 2
     disps = int(rng.integers(-4, 2)) + np.arange(D) / float(subpix)
     w = int(rng.choice([1, 3]))
     cv = gen.make_cv(costs, disps, tm, window_size=w, subpix=subpix)
     img = gen.make_dataset(rng.integers(0, 256, (H, W)).astype(np.float32), (int(np.floor(disps[0])), int(np.ceil(disps[-1]))))
     method = ["ambiguity", "risk", "interval_bounds", "std_intensity", "ambiguity"][int(rng.integers(0, 5))]
+    if nearly_constant:
+        method = "ambiguity"
     if method == "std_intensity" and (H < w or W < w):
         w = 1
         cv.attrs["window_size"], cv.attrs["offset_row_col"] = 1, 0
@@ -221,7 +237,7 @@ def run_case(case, ctx):
         p["eta_max"] = float(rng.choice([0.1, 0.3, 0.7, 0.99]))
         p["eta_step"] = float(rng.choice([0.01, 0.1, 0.25]))
     if method == "ambiguity":
-        p["normalization"] = bool(rng.integers(0, 2))
+        p["normalization"] = bool(rng.integers(0, 2)) or nearly_constant
     if method == "interval_bounds":
         p["possibility_threshold"] = float(rng.choice([0.0, 0.5, 0.9, 1.0]))
     sfx = ["", ".x", ".2"][int(rng.integers(0, 3))]
